@@ -36,6 +36,16 @@ CHECKS = {
    note="Text identity is decided through interned atoms. The precondition (child prefixes include the parent's) is established through the API. Default (None-keyed) namespaces are outside the quantifier.",
    technique="TLA+ codec specification model-checked by TLC (MC_Codec) and replayed; recorded codec events trace-validated by TLC (TraceCodec.tla)",
    design="4/C06"),
+ "C07": dict(
+   text="Xml.tla defines the correspondence between a raw XML document (names and xmlns:* attributes as written, as reported by a non-namespace-aware parser) and a tree: InScope folds the declarations down the document (recomputed in TLA+, independently of lxml), qualified attributes are compared by expanded name, text modulo XML-whitespace strip with blank == absent. Seeded trees (1-25 nodes, prefixes bound through the API incl. re-declaration below, specials < > & \" ' ]]> entity spellings, comment/PI look-alikes, non-ASCII in content, tail, attribute, extras values; valid namespace URIs with & and quotes) are exported by both exporters; the output must be accepted by two independent parsers and is judged by TraceXml.tla (Corr mode export / CorrEml); from_xml(to_xml(t)) must be the same tree up to whitespace.",
+   note="Parsers are observation devices (expat for what the text denotes, lxml as second opinion on well-formedness). Default namespaces and invalid URIs as namespace names are outside the quantifier.",
+   technique="trace validation: exporter outputs parsed independently and judged by a TLA+ document/tree correspondence (Xml.tla, TraceXml.tla) with TLC",
+   design="4/C07"),
+ "C08": dict(
+   text="Same correspondence relation in the import direction, with Text!Clean as the whitespace policy (design-checked idempotent and word-preserving by MC_Text on all strings <= 6). Exhaustive: every string <= 4 (thorough 5) over {SP,TAB,LF,NBSP,a,b} as content and as tail of a literal and a non-literal element in raw / clean / collapse mode. Seeded: documents with prefixed declarations incl. re-declaration in subtrees (two prefixes bound to one URI too), xml:-prefixed and other qualified attributes, entities, CDATA, comments strictly between tags, XML declaration and leading comment, all four clean/collapse combinations and several literals tuples. Every import is judged by TraceXml.tla; the tree is exported and imported again and must be the same tree up to the whitespace policy.",
+   note="UNSPEC: NBSP adjacent to non-blank text, Unicode whitespace beyond SP/TAB/LF/NBSP, text adjacent to comments, default namespaces.",
+   technique="trace validation: imports judged by the TLA+ correspondence relation (Xml.tla + Text.tla) with TLC; exhaustive short texts, seeded documents",
+   design="4/C08"),
  "C09": dict(
    text="TLC explores every forest over 4 nodes x 2 names with every edit (append, insert at every index, remove, clear, replace, both shift modes and directions, and the failing variants) and checks the spec's own invariants/action properties; the harness replays every labelled transition, every state's full query table, all paths to depth 3/4 and seeded walks on real Node objects, and TraceForest.tla judges long random histories over 12-20 nodes recorded from the real API. Exhaustive within the bound; beyond it, sampled.",
    note="Trusted: TLC, the projection pi (public properties only), Python list semantics for building states. Assumes the usage constraint of the statement (one parent at a time, no cycles, in-range insert index). Stored parent links of unlisted nodes are not judged.",
